@@ -1,8 +1,8 @@
 (* C10 — property theorems only: each closed by [exact] and followed by Print Assumptions. *)
 From Coq Require Import List ZArith Bool Arith Permutation.
-From AV Require Import Model.C10_Order Model.C10_Sort Model.C10_Rank Model.C10_Heap Model.D_C10.
+From AV Require Import Model.C10_Order Model.C10_Sort Model.C10_Rank Model.C10_Heap Model.C10_Dict Model.D_C10.
 From AV Require Import Proofs.C10_Float Proofs.C10_Cmp Proofs.C10_Bytes Proofs.C10_MCmp Proofs.C10_Sort Proofs.C10_SortImpl.
-From AV Require Import Proofs.C10_Kernels Proofs.C10_Partition Proofs.C10_Rank Proofs.C10_Examples Proofs.C10_SortSound Proofs.C10_Lex Proofs.C10_Bool Proofs.C10_Heap.
+From AV Require Import Proofs.C10_Kernels Proofs.C10_Partition Proofs.C10_Rank Proofs.C10_Examples Proofs.C10_SortSound Proofs.C10_Lex Proofs.C10_Bool Proofs.C10_Heap Proofs.C10_SortDict.
 Import ListNotations.
 
 (* Used below:  tpo c  :=  (forall a, c a a = Eq) /\ (forall a b, c b a = CompOpp (c a b)) /\
@@ -142,6 +142,26 @@ Theorem heap_topk_correct :
   sort_check cmp (seq 0 n) (Some limit) (lexsort_topk so n limit cmp) = 1%Z.
 Proof. exact lexsort_topk_check. Qed.
 Print Assumptions heap_topk_correct.
+
+(* sort_dictionary: sorting the (key index, rank of the dictionary value) tuples — ranks computed under child_opts, only the
+   KEY nulls partitioned away, so valid keys pointing at null dictionary values travel among the "valids" with the rank
+   of a null — yields an output the predicate accepts for the comparator on the LOGICAL values of the dictionary array. *)
+Theorem sort_dictionary_sorted_perm :
+  forall (so : (nat * nat -> nat * nat -> comparison) -> list (nat * nat) -> list (nat * nat))
+         (se : (nat * nat -> nat * nat -> comparison) -> nat -> list (nat * nat) -> list (nat * nat)),
+  (forall c l, tpo c -> Permutation (so c l) l /\ sortedb c (so c l) = true) ->
+  (forall c n l, tpo c -> n < length l ->
+     Permutation (se c n l) l /\
+     exists p, nth_error (se c n l) n = Some p /\
+       Forall (fun x => c x p <> Gt) (firstn n (se c n l)) /\
+       Forall (fun y => c p y <> Gt) (skipn (S n) (se c n l))) ->
+  (forall c1 c2 l, (forall x y, In x l -> In y l -> c1 x y = c2 x y) -> so c1 l = so c2 l) ->
+  (forall c1 c2 n l, (forall x y, In x l -> In y l -> c1 x y = c2 x y) -> se c1 n l = se c2 n l) ->
+  forall (keys : list (option nat)) (values : list oval) (nf desc : bool) (limit : option nat),
+  (forall i k, nth i keys None = Some k -> k < length values) ->
+  sort_check (cmp_opts nf desc) (dict_col keys values) limit (sort_dictionary so se keys values nf desc limit) = 1%Z.
+Proof. exact sort_dictionary_check. Qed.
+Print Assumptions sort_dictionary_sorted_perm.
 
 (* the contracts are satisfiable: insertion sort (the instance run by the extracted model) meets all four *)
 Theorem sort_oracle_instance : forall T : Type,
